@@ -29,15 +29,15 @@ def cfg(T, alloc, NA, NB, pocca=0, pocma=0, pocs=0, ae=0, construct=0, soccc=1, 
 
 
 def cfg_name(c):
-    a = "std" if c["SV_ALLOC"] == 0 else "L%d%d%d%s%s" % (c["SV_POCCA"], c["SV_POCMA"], c["SV_POCS"],
-                                                           "ae" if c["SV_AE"] else "", "c" if c["SV_CONSTRUCT"] else "")
+    a = "std" if c["SV_ALLOC"] == 0 else "%s%d%d%d%s%s" % ("F" if c["SV_ALLOC"] == 2 else "L", c["SV_POCCA"], c["SV_POCMA"], c["SV_POCS"],
+                                                             "ae" if c["SV_AE"] else "", "c" if c["SV_CONSTRUCT"] else "")
     if c.get("SV_THROWDEF"):
         a += "td"
     return "%s/%s/N%d,%d" % (c["SV_T"], a, c["SV_NA"], c["SV_NB"])
 
 
 def cfg_class(c):
-    return "%s/%s" % (c["SV_T"], "std" if c["SV_ALLOC"] == 0 else "ledger")
+    return "%s/%s" % (c["SV_T"], "std" if c["SV_ALLOC"] == 0 else "fancy" if c["SV_ALLOC"] == 2 else "ledger")
 
 
 Q = {
@@ -55,6 +55,11 @@ Q = {
     "tthrow-l011":  cfg("TThrow", 1, 5, 2, 0, 1, 1),
     "int-l111":     cfg("int", 1, 0, 4, 1, 1, 1),
     "tas-l000":     cfg("TAssignThrow", 1, 2, 5),
+    # SV_ALLOC 2: the same ledger allocator handing out fancy pointers (FancyPtr<T>, two words, self-checking)
+    "tnx-f000":     cfg("TNx", 2, 2, 5),
+    "int-f101":     cfg("int", 2, 2, 5, 1, 0, 1),
+    "tthrow-f011":  cfg("TThrow", 2, 0, 3, 0, 1, 1),
+    "tmo-f111":     cfg("TMoveOnly", 2, 1, 8, 1, 1, 1),
 }
 QTD = {
     "tnx-td":       cfg("TNx", 1, 2, 5, throwdef=1),
@@ -71,6 +76,8 @@ def thorough_matrix():
     i = 0
     for fi, f in enumerate(flavours):
         out["%s-std" % f] = cfg(f, 0, *npairs[fi % len(npairs)])
+    for k in ("tnx-f000", "int-f101", "tthrow-f011", "tmo-f111"):
+        out[k] = Q[k]
     for combo in range(8):
         for ae in (0, 1):
             pocca, pocma, pocs = (combo >> 2) & 1, (combo >> 1) & 1, combo & 1
@@ -215,9 +222,9 @@ def check_C01(tier, seed):
     mon = ["--monitors", "C01"]
     plan = []
     if tier == "quick":
-        for k in ("int-std", "tnx-l000", "tthrow-l000", "tco-l010", "tmo-l111"):
+        for k in ("int-std", "tnx-l000", "tthrow-l000", "tco-l010", "tmo-l111", "tnx-f000"):
             plan += shards(Q[k], "asan-dbg", ["--mode", "sweep", "--level", 0] + mon, 2)
-        for k in ("int-std", "tnx-l000", "tthrow-l000", "tthrow-std", "tmo-l111", "tco-l010", "tnx-l101ae", "tmot-l001", "int-l111"):
+        for k in ("int-std", "tnx-l000", "tthrow-l000", "tthrow-std", "tmo-l111", "tco-l010", "tnx-l101ae", "tmot-l001", "int-l111", "tnx-f000", "int-f101"):
             plan.append(hist_run(Q[k], "asan-dbg", ["--mode", "random", "--cases", 600, "--len", 60, "--seed", seed] + mon))
         for k in ("int-std", "tnx-l000"):
             plan.append(hist_run(Q[k], "asan-rel", ["--mode", "random", "--cases", 1500, "--len", 60, "--seed", seed + 1] + mon))
@@ -259,11 +266,11 @@ def check_C02(tier, seed):
     mon = ["--monitors", "C02"]
     plan = []
     if tier == "quick":
-        for k in ("tnx-l000", "tthrow-l000", "tmo-l111", "tnx-l101", "int-std"):
+        for k in ("tnx-l000", "tthrow-l000", "tmo-l111", "tnx-l101", "int-std", "tnx-f000"):
             plan += shards(Q[k], "asan-dbg", ["--mode", "sweep", "--level", 0] + mon, 2)
         for k in Q:
             plan.append(hist_run(Q[k], "asan-dbg", ["--mode", "random", "--focus", "alloc", "--cases", 500, "--len", 60, "--seed", seed] + mon))
-        for k in ("tthrow-l000", "tmot-l001", "tco-l010"):
+        for k in ("tthrow-l000", "tmot-l001", "tco-l010", "tthrow-f011"):
             plan += shards(Q[k], "asan-dbg", ["--mode", "fault", "--level", 0] + mon, 2)
     else:
         M = thorough_matrix()
@@ -271,7 +278,7 @@ def check_C02(tier, seed):
             plan += shards(c, "asan-dbg-o1", ["--mode", "sweep", "--level", 1] + mon, 2, k)
             plan.append(hist_run(c, "asan-dbg-o1", ["--mode", "random", "--focus", "alloc", "--cases", 5000, "--len", 60, "--seed", seed] + mon, k))
             plan.append(hist_run(c, "asan-dbg-o1", ["--mode", "rfault", "--cases", 400, "--len", 12, "--seed", seed] + mon, k))
-        for k in ("tthrow-l000", "tmot-l001", "tco-l010", "tthrow-l011", "tsw-l110"):
+        for k in ("tthrow-l000", "tmot-l001", "tco-l010", "tthrow-l011", "tsw-l110", "tthrow-f011", "tmo-f111"):
             plan += shards(Q[k], "asan-dbg-o1", ["--mode", "fault", "--level", 1] + mon, 4)
     run_hist_plan(rp, "C02", plan, accept={"C02", "C06"} if False else {"C02"})
     if tier != "quick":
@@ -289,11 +296,11 @@ def check_C03(tier, seed):
     tracked = [k for k in Q if Q[k]["SV_T"] != "int"]
     plan = []
     if tier == "quick":
-        for k in ("tnx-l000", "tthrow-l000", "tmo-l111", "tco-l010", "tnx-l000c"):
+        for k in ("tnx-l000", "tthrow-l000", "tmo-l111", "tco-l010", "tnx-l000c", "tnx-f000"):
             plan += shards(Q[k], "asan-dbg", ["--mode", "sweep", "--level", 0] + mon, 2)
         for k in tracked:
             plan.append(hist_run(Q[k], "asan-dbg", ["--mode", "random", "--cases", 500, "--len", 60, "--seed", seed] + mon))
-        for k in ("tthrow-l000", "tmot-l001", "tco-l010", "tsw-l110"):
+        for k in ("tthrow-l000", "tmot-l001", "tco-l010", "tsw-l110", "tthrow-f011"):
             plan += shards(Q[k], "asan-dbg", ["--mode", "fault", "--level", 0] + mon, 2)
         plan.append(hist_run(Q["int-std"], "asan-dbg", ["--mode", "random", "--cases", 800, "--len", 60, "--seed", seed] + mon))
     else:
@@ -302,7 +309,7 @@ def check_C03(tier, seed):
             plan += shards(c, "asan-dbg-o1", ["--mode", "sweep", "--level", 1] + mon, 2, k)
             plan.append(hist_run(c, "asan-dbg-o1", ["--mode", "random", "--cases", 5000, "--len", 60, "--seed", seed] + mon, k))
             plan.append(hist_run(c, "asan-dbg-o1", ["--mode", "rfault", "--cases", 400, "--len", 12, "--seed", seed] + mon, k))
-        for k in ("tthrow-l000", "tmot-l001", "tco-l010", "tthrow-l011", "tsw-l110", "tnx-l000c"):
+        for k in ("tthrow-l000", "tmot-l001", "tco-l010", "tthrow-l011", "tsw-l110", "tnx-l000c", "tthrow-f011", "tmo-f111"):
             plan += shards(Q[k], "asan-dbg-o1", ["--mode", "fault", "--level", 1] + mon, 4)
     run_hist_plan(rp, "C03", plan)
     if tier != "quick":
@@ -318,12 +325,12 @@ def check_C04(tier, seed):
     mon = ["--monitors", "C04"]
     plan = []
     if tier == "quick":
-        for k in ("tnx-l000", "tthrow-l000", "tmo-l111", "tnx-l101", "int-std", "tthrow-l011"):
+        for k in ("tnx-l000", "tthrow-l000", "tmo-l111", "tnx-l101", "int-std", "tthrow-l011", "tnx-f000"):
             plan += shards(Q[k], "asan-dbg", ["--mode", "sweep", "--level", 0] + mon, 2)
         for k in Q:
             plan.append(hist_run(Q[k], "asan-dbg", ["--mode", "random", "--focus", "alloc", "--cases", 400, "--len", 60, "--seed", seed] + mon))
             plan.append(hist_run(Q[k], "asan-dbg", ["--mode", "random", "--focus", "small", "--cases", 300, "--len", 40, "--seed", seed + 7] + mon))
-        for k in ("tthrow-l000", "tmot-l001", "tco-l010", "tthrow-std"):
+        for k in ("tthrow-l000", "tmot-l001", "tco-l010", "tthrow-std", "tthrow-f011"):
             plan += shards(Q[k], "asan-dbg", ["--mode", "fault", "--level", 0] + mon, 2)
     else:
         M = thorough_matrix()
@@ -332,7 +339,7 @@ def check_C04(tier, seed):
             plan.append(hist_run(c, "asan-dbg-o1", ["--mode", "random", "--focus", "alloc", "--cases", 5000, "--len", 60, "--seed", seed] + mon, k))
             plan.append(hist_run(c, "asan-dbg-o1", ["--mode", "random", "--focus", "small", "--cases", 3000, "--len", 40, "--seed", seed + 7] + mon, k))
             plan.append(hist_run(c, "asan-dbg-o1", ["--mode", "rfault", "--cases", 400, "--len", 12, "--seed", seed] + mon, k))
-        for k in ("tthrow-l000", "tmot-l001", "tco-l010", "tthrow-l011", "tthrow-std"):
+        for k in ("tthrow-l000", "tmot-l001", "tco-l010", "tthrow-l011", "tthrow-std", "tthrow-f011", "tmo-f111"):
             plan += shards(Q[k], "asan-dbg-o1", ["--mode", "fault", "--level", 1] + mon, 4)
     run_hist_plan(rp, "C04", plan)
     if tier != "quick":
@@ -352,12 +359,12 @@ def check_C05(tier, seed):
     mon = ["--monitors", "C05", "--fault-mask", "c05", "--select", "strong"]
     plan = []
     if tier == "quick":
-        for k in ("tnx-l000", "tthrow-l000", "tco-l010", "tmo-l111", "tmot-l001", "tthrow-std"):
+        for k in ("tnx-l000", "tthrow-l000", "tco-l010", "tmo-l111", "tmot-l001", "tthrow-std", "tthrow-f011"):
             plan += shards(Q[k], "asan-dbg", ["--mode", "fault", "--level", 0] + mon, 2)
         for k in ("tthrow-l000", "tnx-l000", "tthrow-l011"):
             plan.append(hist_run(Q[k], "asan-dbg", ["--mode", "rfault", "--cases", 300, "--len", 10, "--seed", seed] + mon))
     else:
-        for k in ("tnx-l000", "tthrow-l000", "tco-l010", "tmo-l111", "tmot-l001", "tthrow-std", "tsw-l110", "tthrow-l011", "tnx-l000c", "tnx-l101ae"):
+        for k in ("tnx-l000", "tthrow-l000", "tco-l010", "tmo-l111", "tmot-l001", "tthrow-std", "tsw-l110", "tthrow-l011", "tnx-l000c", "tnx-l101ae", "tthrow-f011", "tmo-f111"):
             plan += shards(Q[k], "asan-dbg-o1", ["--mode", "fault", "--level", 2] + mon, 4)
             plan.append(hist_run(Q[k], "asan-dbg-o1", ["--mode", "rfault", "--cases", 4000, "--len", 12, "--seed", seed] + mon))
         for k in ("tthrow-l000", "tco-l010"):
@@ -381,13 +388,13 @@ def check_C06(tier, seed):
     mon = ["--monitors", "C06"]
     plan = []
     if tier == "quick":
-        for k in ("tthrow-l000", "tco-l010", "tmot-l001", "tsw-l110", "tnx-l000", "tas-l000"):
+        for k in ("tthrow-l000", "tco-l010", "tmot-l001", "tsw-l110", "tnx-l000", "tas-l000", "tthrow-f011"):
             plan += shards(Q[k], "asan-dbg", ["--mode", "fault", "--level", 0] + mon, 3)
         plan += shards(Q["tthrow-l011"], "asan-dbg", ["--mode", "fault", "--level", 0, "--pairs", 1, "--select", "alias"] + mon, 2)
         for k in ("tthrow-l000", "tthrow-std", "tnx-l000"):
             plan.append(hist_run(Q[k], "asan-dbg", ["--mode", "rfault", "--cases", 300, "--len", 10, "--seed", seed, "--pairs", 1] + mon))
     else:
-        for k in ("tnx-l000", "tthrow-l000", "tco-l010", "tmo-l111", "tmot-l001", "tthrow-std", "tsw-l110", "tthrow-l011", "tnx-l000c", "tnx-l101ae", "tnx-l101"):
+        for k in ("tnx-l000", "tthrow-l000", "tco-l010", "tmo-l111", "tmot-l001", "tthrow-std", "tsw-l110", "tthrow-l011", "tnx-l000c", "tnx-l101ae", "tnx-l101", "tthrow-f011", "tmo-f111"):
             plan += shards(Q[k], "asan-dbg-o1", ["--mode", "fault", "--level", 1, "--pairs", 1] + mon, 6)
             plan.append(hist_run(Q[k], "asan-dbg-o1", ["--mode", "rfault", "--cases", 3000, "--len", 12, "--seed", seed, "--pairs", 1] + mon))
     run_hist_plan(rp, "C06", plan)
@@ -407,7 +414,7 @@ def check_C07(tier, seed):
                "(sweep, binary ops) + ownership-heavy random histories over several propagation-trait combinations; tuple = (op, form, ids equal/unequal, operand state classes)")
     rp.assumptions = ["for is_always_equal allocators 'equals' is the allocator's own operator== (always true): ids are carried but the id check is vacuous there"]
     mon = ["--monitors", "C07"]
-    ks = ("tnx-l000", "tmo-l111", "tco-l010", "tsw-l110", "tmot-l001", "tnx-l101", "tthrow-l011") if tier == "quick" else None
+    ks = ("tnx-l000", "tmo-l111", "tco-l010", "tsw-l110", "tmot-l001", "tnx-l101", "tthrow-l011", "int-f101", "tmo-f111") if tier == "quick" else None
     plan = []
     if tier == "quick":
         for k in ks:
@@ -435,7 +442,7 @@ def check_C09(tier, seed):
     mon = ["--monitors", "C09"]
     plan = []
     if tier == "quick":
-        for k in ("tnx-l000", "tmo-l111", "tco-l010", "tthrow-std", "tnx-l101ae", "tthrow-l011", "int-std", "tmot-l001", "int-l111"):
+        for k in ("tnx-l000", "tmo-l111", "tco-l010", "tthrow-std", "tnx-l101ae", "tthrow-l011", "int-std", "tmot-l001", "int-l111", "tnx-f000", "int-f101"):
             plan += shards(Q[k], "asan-dbg", ["--mode", "sweep", "--level", 0, "--select", "binary"] + mon, 2)
             plan.append(hist_run(Q[k], "asan-dbg", ["--mode", "random", "--focus", "alloc", "--cases", 400, "--len", 60, "--seed", seed] + mon))
     else:
@@ -461,9 +468,9 @@ def check_C10(tier, seed):
     mon = ["--monitors", "C10"]
     plan = []
     if tier == "quick":
-        for k in ("tnx-l000", "tthrow-l000", "int-std", "tco-l010", "tmo-l111", "tnx-l101", "int-l111"):
+        for k in ("tnx-l000", "tthrow-l000", "int-std", "tco-l010", "tmo-l111", "tnx-l101", "int-l111", "tnx-f000"):
             plan += shards(Q[k], "asan-dbg", ["--mode", "sweep", "--level", 0] + mon, 2)
-        for k in ("tnx-l000", "tthrow-l000", "int-std", "tco-l010", "tmo-l111", "tthrow-std", "tnx-l101ae", "tnx-l000c", "int-l111", "tnx-l101", "tsw-l110"):
+        for k in ("tnx-l000", "tthrow-l000", "int-std", "tco-l010", "tmo-l111", "tthrow-std", "tnx-l101ae", "tnx-l000c", "int-l111", "tnx-l101", "tsw-l110", "int-f101"):
             plan.append(hist_run(Q[k], "asan-dbg", ["--mode", "random", "--focus", "grow", "--cases", 500, "--len", 60, "--seed", seed] + mon))
     else:
         M = thorough_matrix()
@@ -488,7 +495,7 @@ def check_C11(tier, seed):
     plan = []
     lvl = 0 if tier == "quick" else 2
     fl = "asan-dbg" if tier == "quick" else "asan-dbg-o1"
-    ks = ("int-std", "tnx-l000", "tthrow-l000", "tco-l010") if tier == "quick" else ("int-std", "tnx-l000", "tthrow-l000", "tco-l010", "tthrow-std", "tsw-l110", "tnx-l000c", "tnx-l101ae")
+    ks = ("int-std", "tnx-l000", "tthrow-l000", "tco-l010", "tnx-f000") if tier == "quick" else ("int-std", "tnx-l000", "tthrow-l000", "tco-l010", "tthrow-std", "tsw-l110", "tnx-l000c", "tnx-l101ae", "tnx-f000", "int-f101")
     for k in ks:
         plan += shards(Q[k], fl, ["--mode", "sweep", "--level", lvl, "--select", "alias"] + mon, 3 if tier == "quick" else 6)
         plan.append(hist_run(Q[k], fl, ["--mode", "random", "--focus", "alias", "--cases", 500 if tier == "quick" else 8000, "--len", 60, "--seed", seed] + mon))
@@ -514,7 +521,7 @@ def check_C15(tier, seed):
     plan = []
     lvl = 0 if tier == "quick" else 1
     fl = "asan-dbg" if tier == "quick" else "asan-dbg-o1"
-    ks = ("int-std", "tnx-l000", "tthrow-l000", "tmo-l111", "tco-l010") if tier == "quick" else list(Q.keys())
+    ks = ("int-std", "tnx-l000", "tthrow-l000", "tmo-l111", "tco-l010", "tnx-f000") if tier == "quick" else list(Q.keys())
     for k in ks:
         plan += shards(Q[k], fl, ["--mode", "sweep", "--level", lvl, "--select", "range"] + mon, 2 if tier == "quick" else 4)
         plan.append(hist_run(Q[k], fl, ["--mode", "random", "--focus", "range", "--cases", 500 if tier == "quick" else 8000, "--len", 60, "--seed", seed] + mon))
@@ -1250,6 +1257,7 @@ def main():
         print("unknown property %s" % a.prop)
         return 2
     seed = svlib.seed_from_env()
+    svlib.prune_cache()
     try:
         return CHECKS[a.prop](a.tier, seed)
     except BuildError as e:
